@@ -404,6 +404,21 @@ class Program(object):
                                 q not in known and d is not fn and \
                                 isinstance(d._parent, ast.Module):
                             target = d
+                        elif d is None and ":" in m.imports.get(q, ""):
+                            # ... or imported from another module of the
+                            # package, where the reference tree did not have
+                            # it either
+                            mod2, _, name2 = m.imports[q].partition(":")
+                            m2 = self.modules.get(mod2)
+                            d2 = m2.defs.get(name2) if m2 is not None \
+                                else None
+                            known2 = _known_names().get(mod2)
+                            if isinstance(d2, ast.FunctionDef) and \
+                                    known2 is not None and \
+                                    name2 not in known2 and \
+                                    isinstance(d2._parent, ast.Module):
+                                self.consulted.add(mod2)
+                                target = d2
                     elif isinstance(c.func, ast.Attribute) and \
                             isinstance(c.func.value, ast.Name) and \
                             c.func.value.id == "self" and cls is not None:
